@@ -8,6 +8,7 @@ import (
 	"io"
 	"net"
 	"runtime"
+	"sync"
 	"sync/atomic"
 	"time"
 
@@ -19,6 +20,7 @@ func init() {
 	verifRegister("verifC15TwoPeers", verifC15TwoPeers)
 	verifRegister("verifC15CloseWithFullQueue", verifC15CloseWithFullQueue)
 	verifRegister("verifC15RemoveThenGet", verifC15RemoveThenGet)
+	verifRegister("verifC15CloseWithLateClient", verifC15CloseWithLateClient)
 }
 
 type verifListener struct {
@@ -331,5 +333,62 @@ func verifC15RemoveThenGet() {
 	}
 	verifAssertKnown(!closed, "the-successor-is-not-closed-by-the-first-conn's-watcher", "C15-stale-watcher-removes-successor", true)
 	verifAssert(m.Close() == nil, "mux-close-ok")
+	verifReach("done")
+}
+
+// verifLateConn: a client that connects, stays silent until the gate opens and
+// then sends its (valid) first frame.
+type verifLateConn struct {
+	verifTCPConn
+	gate  chan struct{}
+	gated bool
+}
+
+func (c *verifLateConn) Read(p []byte) (int, error) {
+	if !c.gated {
+		c.gated = true
+		<-c.gate
+	}
+	return c.verifTCPConn.Read(p)
+}
+
+// Close while a client is connected that has not sent its first frame yet; the
+// frame arrives while Close is in progress. Whatever the interleaving: once
+// Close has returned nothing is attached to the closed mux and the client's
+// connection is closed (a closed mux hands out nothing).
+func verifC15CloseWithLateClient() {
+	lst := &verifListener{ch: make(chan net.Conn, 1), addr: &net.TCPAddr{IP: net.IPv4(10, 0, 0, 1).To4(), Port: 4000}}
+	m := NewTCPMuxDefault(TCPMuxParams{Listener: lst, Logger: verifNopLogger{}, ReadBufferSize: 8, AliveDurationForConnFromStun: 400 * time.Millisecond})
+	localIP := net.IPv4(10, 0, 0, 1).To4()
+	msg, err := stun.Build(stun.BindingRequest, stun.NewTransactionIDSetter(verifTxID()), stun.NewUsername("zz:peer"), PriorityAttr(verifU32()))
+	verifAssert(err == nil, "build")
+	conn := &verifLateConn{gate: make(chan struct{})}
+	conn.localTCP = &net.TCPAddr{IP: localIP, Port: 4000}
+	conn.data, conn.failAt, conn.remote = verifFrame(msg.Raw), -1, &net.TCPAddr{IP: net.IPv4(20, 0, 0, 7).To4(), Port: 7007}
+	conn.hold = make(chan struct{})
+	lst.ch <- conn
+	for n := 1 + verifChoice(3); n > 0; n-- { // the accept loop picks the client up
+		runtime.Gosched()
+	}
+	var wg sync.WaitGroup
+	wg.Add(1)
+	go func() { defer wg.Done(); verifAssert(m.Close() == nil, "Close-returns-nil") }()
+	for n := verifChoice(3); n > 0; n-- {
+		runtime.Gosched()
+	}
+	close(conn.gate) // the first frame arrives now
+	verifLetOthersRun()
+	if conn.gated {
+		verifReach("frame-arrived-while-closing")
+	}
+	m.mu.Lock()
+	closing := m.closed
+	attached := len(m.connsIPv4) + len(m.connsIPv6)
+	m.mu.Unlock()
+	verifAssertKnown(!(closing && attached > 0), "nothing-is-attached-to-a-mux-that-is-closed", "C15-first-frame-after-close-attaches", true)
+	verifFireAfterFuncs() // (a provisional conn attached by mistake expires, so that Close can finish)
+	wg.Wait()
+	verifLetOthersRun()
+	verifAssert(conn.closed >= 1, "the-client's-connection-is-closed")
 	verifReach("done")
 }
